@@ -19,6 +19,8 @@ def rules(ctx, db):
       "written by every backend before into_inner() reads them")
     n5 = oc.rule_outputs(ctx, db, "R5", want_socket=False)
     ctx.floor("R5", "output-field obligations (file/pipe ops)", n5, 12 if (has_iour(db) and has_poll(db)) else 6)
+    R("R6", "FORWARD", "an op that wraps another op forwards every trait method the inner op overrides")
+    n6 = oc.rule_forward(ctx, db, "R6", want_socket=False)
     n1 = oc.rule_dir(ctx, db, "R1", want_socket=False)
     ctx.floor("R1", "direction-typed buffer parameters (file/pipe ops)", n1, 8 if (has_iour(db) and has_poll(db)) else 4)
     n2 = oc.rule_parity(ctx, db, "R2", want_socket=False)
